@@ -41,6 +41,16 @@ _RE_INV = re.compile(r'Error: Invariant (\w+) is violated')
 _RE_PROP = re.compile(r'Error: (?:Action|Temporal) propert(?:y|ies) (\w+)? ?(?:is|were) violated')
 
 
+def _die_with_parent():
+    """the model checker must not outlive a check that is killed from outside (an outer `timeout`, a stopped job)"""
+    try:
+        import ctypes
+        import signal
+        ctypes.CDLL('libc.so.6', use_errno=True).prctl(1, signal.SIGKILL)      # PR_SET_PDEATHSIG
+    except Exception:
+        pass
+
+
 def run(module, cfg, scratch, *, workers=16, timeout=900, coverage=True, dump=False,
         simulate=None, depth=None, seed=None, env=None, deadlock=None, extra=(), heap='8g',
         dfs=False, tool_opts='', spec_dir=None):
@@ -86,7 +96,7 @@ def run(module, cfg, scratch, *, workers=16, timeout=900, coverage=True, dump=Fa
     t0 = time.time()
     try:
         p = subprocess.run(cmd, cwd=scratch, env=e, stdout=subprocess.PIPE, stderr=subprocess.STDOUT,
-                           timeout=timeout, text=True, errors='replace')
+                           timeout=timeout, text=True, errors='replace', preexec_fn=_die_with_parent)
     except subprocess.TimeoutExpired:
         subprocess.run(['pkill', '-f', meta], check=False)
         raise TLCError('TLC timed out after %ss on %s' % (timeout, module))
